@@ -33,7 +33,7 @@ def floors(tier):
             "kind:curated": 300 if q else 5000, "kind:corpus": 40 if q else 200, "with_load_node": 300 if q else 4000,
             "no_dependency": 20 if q else 300, "chain_ge_3": 300 if q else 4000, "leading_load": 30 if q else 400,
             "last_is_most_expensive": 100 if q else 1500, "monitor:get_critical_path": 4000 if q else 55000, "line_number_gaps": 300 if q else 4000,
-            "report_cp_column_checked": 1200 if q else 18000, "store_load_kernels": 80 if q else 1000,
+            "report_cp_column_checked": 1200 if q else 18000, "store_load_kernels": 80 if q else 1000, "dict_first_checked": 1200 if q else 18000,
             "edge_weights_checked": 8000 if q else 100000}
 
 
@@ -85,7 +85,26 @@ def graph_data(forms, dg):
 
 
 def judge(forms, dg, R, case, frontend=None):
+    first_dict = None
+    if frontend is not None:
+        # the machine-readable report asked for first, from the fresh graph (nothing has asked for the critical path yet)
+        try:
+            first_dict = frontend.full_analysis_dict(forms, dg)
+        except Exception as e:  # noqa
+            R.exception(e, case, prefix="dict-first/")
     nt = judge_calls(forms, dg, R, case)
+    if first_dict is not None:
+        R.count("dict_first_checked")
+        cp = dg.get_critical_path()
+        want = {x.line_number: float(x.latency_cp) for x in cp}
+        got = {int(row["LineNumber"]): float(row["LatencyCP"]) for row in first_dict["Kernel"]}
+        tot = float(first_dict["Summary"]["CriticalPath"])
+        if abs(sum(got.values()) - tot) > 1e-6:
+            R.violation("dict/per-line-values-do-not-add-up-to-the-total", "dict asked for first: per-line LatencyCP add up to %s, Summary.CriticalPath %s"
+                        % (sum(got.values()), tot), case)
+        elif any(abs(got.get(l, 0.0) - v) > 1e-6 for l, v in want.items()) or any(v != 0.0 and l not in want for l, v in got.items()):
+            R.violation("dict/per-line-values-are-not-the-critical-path", "dict asked for first: LatencyCP %s, critical path %s"
+                        % ({l: v for l, v in got.items() if v}, want), case)
     if frontend is not None:
         try:
             marks = report_cp_marks(forms, dg, frontend)
@@ -128,6 +147,36 @@ def judge_calls(forms, dg, R, case):
     return nt
 
 
+def _regkey(r):
+    return ((getattr(r, "prefix", None) or "").lower(), str(getattr(r, "name", "")).lower())
+
+
+def reads_written_back_base(prod, cons):
+    """Does ``cons`` mention (as operand, or as base/index of a memory operand) the base register of a pre-/post-indexed memory
+    operand of ``prod``? Plain look at the parsed operands; same register = same number in the general-purpose file."""
+    if prod is None or cons is None:
+        return True
+    bases = []
+    for o in prod.operands or []:
+        if type(o).__name__ == "MemoryOperand" and (o.pre_indexed or o.post_indexed) and o.base is not None:
+            bases.append(_regkey(o.base))
+    if not bases:
+        return False
+    seen = []
+    sem = cons.semantic_operands or {}
+    # what the consumer reads according to the analysis itself (explicit and implicit operands), plus every address register
+    for o in list(sem.get("source", [])) + list(sem.get("src_dst", [])) + list(sem.get("destination", [])) + list(cons.operands or []):
+        n = type(o).__name__
+        if n == "RegisterOperand":
+            seen.append(_regkey(o))
+        elif n == "MemoryOperand":
+            for r in (o.base, o.index):
+                if r is not None:
+                    seen.append(_regkey(r))
+    gp = lambda k: k[0] in ("x", "w", "")  # noqa
+    return any(gp(b) and gp(k) and b[1] == k[1] for b in bases for k in seen)
+
+
 def judge_once(forms, dg, R, case):
     nodes, edges, lat, wo = graph_data(forms, dg)
     try:
@@ -139,6 +188,7 @@ def judge_once(forms, dg, R, case):
     # "producer-to-consumer latency": every edge out of an instruction weighs that instruction's latency without its separately
     # modelled load stage (plus the model's forwarding latency on a store->load edge), or the model's index write-back latency;
     # the edge from a load stage to its instruction weighs the load part
+    by_line = {f.line_number: f for f in forms}
     model = getattr(dg, "model", None)
     fwd = float((model.get("store_to_load_forward_latency", 0) if model is not None else 0) or 0)
     pidx = float(model.get("p_index_latency", 1) if model is not None else 1)
@@ -148,6 +198,13 @@ def judge_once(forms, dg, R, case):
         else:
             adm = {wo[u], wo[u] + fwd, pidx}
         R.count("edge_weights_checked")
+        if int(u) == u and abs(w - pidx) <= 1e-6 and not any(abs(w - a) <= 1e-6 for a in (wo[u], wo[u] + fwd)):
+            # the index write-back latency is only right on an edge to a reader of the written-back base register
+            if not reads_written_back_base(by_line.get(u), by_line.get(v)):
+                R.violation("edge-weight/write-back-latency-on-another-edge", "edge %s->%s weighs the index write-back latency %s although the consumer does not read a "
+                            "written-back base register of the producer (producer latency without load stage %s)" % (u, v, w, wo[u]), case)
+                break
+            R.count("write_back_edges_checked")
         if not any(abs(w - a) <= 1e-6 for a in adm):
             R.violation("edge-weight/not-the-producer-latency", "edge %s->%s weighs %s; latency of the producer %s (without load stage %s), forwarding %s, index write-back %s"
                         % (u, v, w, lat[int(u)], wo[int(u)], fwd, pidx), case)
